@@ -513,9 +513,31 @@ class E2ECase:
                     state["n"] += 1
                     return None
                 w.net.on_send = hook
+            if fault and fault["type"] == "rp_inject":
+                w.net.on_send = None
             sender.overlay.send_data(scirc.hop.address, scirc.circuit_id, ("0.0.0.0", 0), ("0.0.0.0", 0), payload)
             await asyncio.sleep(0.5)
             w.net.on_send = None
+            if fault and fault["type"] == "rp_inject":
+                # a dishonest rendezvous point (it holds the keys of the two adjacent hops, not the end-to-end keys) makes
+                # up data cells of its own and sends one down each of the two linked circuits, under its own hop layer
+                # only - without the end-to-end layer
+                forged = bt_payload(40 + c["size"] % 50, (c["seed"] ^ 0x5A) & 0xFF)
+                for nd in w.nodes:
+                    rel = nd.overlay.relay_from_to
+                    for cid, r in list(rel.items()):
+                        other = rel.get(r.circuit_id)
+                        if not r.rendezvous_relay or other is None:
+                            continue
+                        keys = w.trace.ref(r.hop.keys)
+                        if keys is None:
+                            continue
+                        inner = b"\x01" + ref_addr(("0.0.0.0", 0)) + ref_addr(("1.2.3.4", 1234)) + forged
+                        body = keys.encrypt_str(inner, BACKWARD)
+                        cellb = w.prefix + b"\x00" + struct.pack(">I", cid) + b"\x00\x00" + body
+                        w.net.inject(nd.address, tuple(other.hop.peer.address), cellb, note="made up by the rendezvous point")
+                        state["hit"] = CELL_HDR
+                await asyncio.sleep(0.5)
             if w.net.escaped:
                 e = w.net.escaped[0][3]
                 self.fail("I3", "exception:" + type(e).__name__, f"{type(e).__name__}: {e} left the receive path")
@@ -531,6 +553,13 @@ class E2ECase:
             for g in got:
                 if g not in want:
                     self.fail("I3", "delivery", f"{g[0]} received data that was never sent to it: {g[2][:32]!r}")
+            if fault and fault["type"] == "rp_inject":
+                info["nontrivial"] = state["hit"] is not None
+                if got != want:
+                    self.fail("I3" if any(g not in want for g in got) else "I1", "rp_inject",
+                              f"the rendezvous point made up cells without the end-to-end layer; deliveries were "
+                              f"{[(g[0], g[2][:24]) for g in got]}")
+                return info
             if fault and fault["type"] == "reflect":
                 # the honest copy still reaches the other end; the reflected copy must not be delivered to the sender
                 info["nontrivial"] = state["hit"] is not None
@@ -703,7 +732,7 @@ def _strategy():
 
 def _e2e_strategy():
     from hypothesis import strategies as st
-    fault = st.one_of(st.none(), st.just({"type": "reflect"}),
+    fault = st.one_of(st.none(), st.just({"type": "reflect"}), st.just({"type": "rp_inject"}),
                       st.fixed_dictionaries({"type": st.just("flip"), "link": st.integers(0, 5),
                                              "byte": st.integers(22, 400), "mask": st.integers(1, 255)}))
     return st.fixed_dictionaries({"seed": st.integers(0, 10_000), "hops": st.integers(1, 2),
